@@ -127,7 +127,7 @@ def dl_propagate_jobs(out, tier, N, d, CAPS):
                        ['self->var_dists.n == 1 && self->var_dists.e[0].first == (p->x >> 1) && __CPROVER_is_fresh(%s, sizeof(*%s))' % (DD, DD),
                         '%s < XT_N && %s < XT_N && %s != %s && %s >= -XT_R && %s < XT_R && %s->b.x == (U_t)(((p->x >> 1) << 1) + 1)' % (F, T, F, T, K, K, DD),
                         'spl_assigns_wf(%s->assigns) && (p->x >> 1) < XT_NV && (p->x >> 1) >= 1 && spl_value(%s->assigns, *p) == SPL_TRUE' % (SATP, SATP),
-                        'spa_walk_ok(self->_preds, %s, %s) && spa_walk_ok(self->_preds, %s, %s)' % (T, F, F, T)],
+                        'spa_hops_ok(self->_dists, self->_preds, xt_H)'],   # predecessor rows are trees (invariant of the edge step, proved under C10): the explanation walks terminate
                        ensures=[('noexcept', '__exc == 0')] + KEEP,
                        assigns='__exc, self->_dists, self->_preds, self->layers, self->base_theory.cnfl, self->dist_constr'),
                    defines=d2, callee_contracts={PROPE: c_edge}, replace=[PROPE], unwind=N + 2, model_unwind=N * N + 3,
@@ -217,4 +217,4 @@ def sat_jobs(out, tier):
 
 
 # what the evidence file says is NOT decided by this module, and what it assumes
-INFO = {'not_under_contract': ['rdl_theory undo layers', 'ov_theory and lra_theory tableau/pivot state', 'solver / core level push-pop (flaws, resolvers)', 'the re-propagation loop of idl_theory::propagate(from,to,dist) over registered undecided constraints'], 'assumptions': ['predecessor walks terminate (acyclic predecessor rows) - a precondition of the propagate(const lit&) job, not yet an invariant proved for the edge step', 'idl value listeners and lra propagation callbacks do not touch the logged state']}
+INFO = {'not_under_contract': ['rdl_theory undo layers', 'ov_theory and lra_theory tableau/pivot state', 'solver / core level push-pop (flaws, resolvers)', 'the re-propagation loop of idl_theory::propagate(from,to,dist) over registered undecided constraints'], 'assumptions': ['the hop-count invariant of the predecessor matrix (proved for the edge step under C10) is a precondition of the propagate(const lit&) job', 'idl value listeners and lra propagation callbacks do not touch the logged state']}
